@@ -117,8 +117,9 @@ def adversarial(rng, doc):
         "unknown-variable": "rule x { %%nosuch == 1 }",
         "backtracking-regex": "rule x { %s == /^(a+)+$/\n %s == /^(a+)+\\1b$/\n %s == /(?=a)(?<=b)x/ }" % (k, k, k),
         # the same patterns where equality (not the `==` operator) does the matching: inside `in` lists, list / map literals, key filters
-        "backtracking-regex-in-list": ("let long = \"aaaaaaaaaaaaaaaaaaaaaaaaaaaaaaaaaaaaaaaaaaaaaaaaaa!\"\nrule x {\n %%long in [ /^(a+)+\\1?$/, \"q\" ]\n %s in [ /^(a+)+\\1?$/, \"q\" ] or %s exists\n}\n"
-                                       "rule y {\n %%long not in [ /^(a+)+\\1b$/ ]\n [%%long] == [ /^(a+)+\\1?$/ ] or %s exists\n}\nrule z {\n let m = { k: %%long }\n %%m == { k: /^(a+)+\\1?$/ } or %s !exists\n}") % (k, k, k, k),
+        "backtracking-regex-in-list": ("let long = \"aaaaaaaaaaaaaaaaaaaaaaaaaaaaaaaaaaaaaaaaaaaaaaaaaa!\"\nrule x {\n %%long in [ /^(a+)+\\1?$/, \"q\" ]\n}\n"
+                                       "rule y {\n %s in [ /^(a+)+\\1?$/, \"q\" ] or %s exists\n}\nrule z {\n %%long not in [ /^(a+)+\\1b$/ ]\n}\n"
+                                       "rule w {\n let ll = [\"aaaaaaaaaaaaaaaaaaaaaaaaaaaaaaaaaaaaaaaaaaaaaaaaaaaaaa!\"]\n %%ll == [ /^(a+)+\\1?$/ ]\n}") % (k, k),
         "substring-multibyte": "rule x { let s = substring(%s, 1, 2)\n %%s exists\n let t = substring(\"é日本\", 1, 3)\n %%t == \"x\" }" % k,
         "parse-functions": "rule x { let a = parse_int(%s)\n %%a exists\n let b = parse_char(%s)\n %%b exists\n let c = parse_epoch(%s)\n %%c exists\n let d = json_parse(%s)\n %%d exists }" % (k, k, k, k),
         "range-odd": "rule x { %s in r[5,1]\n %s in r(0,0)\n %s == r[a,z] }" % (k, k, k),
